@@ -4,3 +4,8 @@ claim("C15",
       "Every call site that can emit a status report is enumerated from the type-checked program and must be dominated by the request-flag test and the event test that its (constant) status requires; the report bundle's flags, destination and referenced ID are traced by SSA value flow; the cascade guards must dominate the send. Holds for every input and path because it is a property of the CFG, not of sampled runs.",
       "Not decided: run-time content of reports, event histories.",
       "DESIGN.md §3 C15")
+claim("C07",
+      "complete-iteration rule on sync.Map.Range callbacks and fan-out loops; lockset (must-held epochs) for read-modify-write atomicity; guarded-call dominance",
+      "For every schedule and every number of clients: all Range callbacks and recipient loops in pkg/agent visit every entry; a hand-over happens only on the recipient-test edge; each load-then-store/delete of the REST mailbox lies in one exclusive lock region and all mailbox writes hold that lock; dispatching delivers xor forwards; delivery is reported / the constraint released only on Deliver()==nil. These are CFG/lockset facts, so they hold for all interleavings the tests cannot enumerate.",
+      "Not decided: exactly-once as a whole over register/unregister/fetch histories; content equality; WebSocket write failures.",
+      "DESIGN.md §3 C07")
